@@ -266,10 +266,37 @@ Theorem C03_rule_plugin_panic_on_read_goroutine_disconnects : forall effw pf f e
 Proof. exact rule_header_panic_lemma. Qed.
 Print Assumptions C03_rule_plugin_panic_on_read_goroutine_disconnects.
 
-(* ---- non-vacuity ---- *)
 Definition ok_frame : frame :=
   mkFrame 5 x01 false RKnown (RBody None) quiet_verdicts (HReturn None) WOk WOk WOk false false true.
 
+(* ---- plugin chains: a stage answers with its FIRST refusing plugin ---- *)
+Theorem C03_stage_status_is_first_refusal : forall l v,
+  hook v <> HookOk ->
+  (stage_verdict l = v /\ hook (stage_verdict l) <> HookOk <->
+   exists pre post, l = pre ++ v :: post /\ Forall (fun x => hook x = HookOk) pre).
+Proof. exact stage_verdict_first_refusal. Qed.
+Print Assumptions C03_stage_status_is_first_refusal.
+
+Theorem C03_stage_passes_iff_all_pass : forall l,
+  hook (stage_verdict l) = HookOk <-> Forall (fun x => hook x = HookOk) l.
+Proof. exact stage_verdict_passes_iff. Qed.
+Print Assumptions C03_stage_passes_iff_all_pass.
+
+(* "the last plugin's answer stands" is not what the chain does: a veto followed by a passing
+   plugin would be lost, the handler would run and the caller would see OK *)
+Theorem C03_stage_last_wins_refuted :
+  exists l s, st_code s <> 0 /\ stage_verdict l = VStat s /\
+              hook (stage_verdict_last_wins l VNil) = HookOk /\
+              dispatch_now (with_chains ok_frame (fun st => match st with SPostReadCallBody => l | _ => [] end))
+                = [Reply 5 (Some s)].
+Proof.
+  exists [VStat (mkStatus 1000 (str "biz") (CText (str "why"))); VNil],
+         (mkStatus 1000 (str "biz") (CText (str "why"))).
+  repeat split; try reflexivity. discriminate.
+Qed.
+Print Assumptions C03_stage_last_wins_refuted.
+
+(* ---- non-vacuity ---- *)
 Example C03_normal_env_inhabited : normal_env ok_frame /\ reaches_post_body ok_frame HKnown.
 Proof.
   split; [split; [split|..]|split]; try reflexivity; try (intros c; discriminate);
